@@ -183,7 +183,13 @@ class Pool:
             return self.funs[d[1]](b(d[2]), b(d[3]))
         if op == "wrap":
             cls = getattr(symbolic, d[1])
-            return cls(b(d[2]), wrap_code=bool(d[3]), wrap_latex=bool(d[3]))
+            inner = b(d[2])
+            # Symbolic wrappers are SymPy Symbols named after str(inner): SymPy's symbol cache hands back the SAME object
+            # for the same inner text, and a later construction overwrites its wrap flags.  Derive the flags from the
+            # inner text so that one object never changes flags during a run (otherwise results depend on run history).
+            flag = sum(map(ord, str(inner))) % 2 == 0
+            _ = d[3]
+            return cls(inner, wrap_code=flag, wrap_latex=flag)
         if op == "deriv":
             v = self.syms[d[2]]
             f = self.funs[0](v) * b(d[1]) if not b(d[1]).has(v) else b(d[1])
